@@ -1,7 +1,9 @@
 """C12 — equivalent representations of the same input give identical results (claimed PARTIAL).
 
-Theorem level : the BAM-partition clause (k-way merge, region clusters, per-alignment map, additive tables) and the
-                cache-lookup clause (find_converted_db / convert_db over all file-system histories).
+Theorem level : the BAM-partition clause (k-way merge, region clusters, per-alignment map, additive tables; END TO END
+                through multimapper resolution, loader, counters, merge and TPM: Props/C12EndToEnd.lean, correspondence
+                and search in harness/props/C12e2e.py) and the cache-lookup clause (find_converted_db / convert_db over
+                all file-system histories).
 Search only   : the format-equivalence clause (.gtf = .gtf.gz = .db, with / without --complete_genedb) - a fact about
                 gffutils / gzip with no IsoQuant logic in between; exercised by differential pipeline runs.
 """
@@ -17,8 +19,8 @@ import vlib
 from gen import bamparts as B
 
 ID = "C12"
-PROPS = ["IsoVerif/Props/C12.lean", "IsoVerif/Props/C12Cache.lean"]
-TARGETS = ["IsoVerif.Props.C12", "IsoVerif.Props.C12Cache"]
+PROPS = ["IsoVerif/Props/C12.lean", "IsoVerif/Props/C12Cache.lean", "IsoVerif/Props/C12EndToEnd.lean"]
+TARGETS = ["IsoVerif.Props.C12", "IsoVerif.Props.C12Cache", "IsoVerif.Props.C12EndToEnd"]
 GEN_DEPS = ["Prims", "Constants"]
 LEVEL = "proof"
 RULE = ("merge / forwarded: exhaustive multisets of <=3 records over coordinates 0..3 x every assignment to <=3 files "
@@ -26,18 +28,38 @@ RULE = ("merge / forwarded: exhaustive multisets of <=3 records over coordinates
         "over 1..4 files, on in-process pysam stand-ins and on real BAM files written with pysam, both memory modes, "
         "real and lowered split thresholds; cache: exhaustive one-entry universe + random (malformed) dictionaries on "
         "real files with controlled mtimes; histories of writes / removals / conversions through the real convert_db "
-        "with a token-writing converter. Non-trivial: the model value is not an error, model == implementation, and "
-        "(merge) >=2 non-empty files, (forwarded) >=2 files and >=1 region, (cache) a hit, (history) >=1 cached hit")
+        "with a token-writing converter; downstream (end to end): seeded record streams over 1..3 chromosomes (reads with "
+        "1..4 records, `__eq__`-duplicates with equal and with conflicting content, all assignment types, matches "
+        "without transcript, missing intron keys), both memory modes, all counting strategies and normalisations, "
+        "non-consecutive assignment ids colliding across chromosomes, 1..3 files with unaligned reads, chromosome names "
+        "whose natural order differs from their string order - through the real collect_reads / verdict files / "
+        "ReadAssignmentLoader / counters / merge_counts / convert_counts_to_tpm. Non-trivial: the model value is not an "
+        "error, model == implementation, and (merge) >=2 non-empty files, (forwarded) >=2 files and >=1 region, (cache) a "
+        "hit, (history) >=1 cached hit, (downstream) some record dropped, some kept and a non-zero count")
 TRUSTED = ["pysam fetch(chr, a, b) yields exactly the records overlapping [a, b) in file order (modelled by `fetch`)",
            "split_coverage_regions enters the model as a parameter (its values are read off the implementation); C05 owns it",
            "the InMemoryAlignmentStorage bin-index slice is modelled by what it selects (C05 owns the index arithmetic)",
            "gffutils / gzip / sqlite: .gtf = .gtf.gz = .db and inferred = declared gene/transcript records are searched, not proved",
-           "cache histories: every write gives the file a fresh mtime (mtime-faithful file system)"]
+           "cache histories: every write gives the file a fresh mtime (mtime-faithful file system)",
+           "end to end: the per-alignment function (filters, profiles, LongReadAssigner, exon correction, polyA, strand) and "
+           "split_coverage_regions are parameters of the model; the loop of construct_models_in_parallel that reads a verdict "
+           "file back is re-stated in the harness (C08flow.read_verdict_file); collect_reads_in_parallel, "
+           "BasicReadAssignmentLoader and pysam.AlignmentFile(...).unmapped are stubbed in the in-process correspondence "
+           "(the real ones run in the pipeline oracle)",
+           "end to end: chromosome ids and feature ids are interned order-preservingly (chromosome index = rank of its name); "
+           "C08's and C02's models and their own correspondence checks are reused unchanged"]
 ASSUMPTIONS = ["CPython int = Lean Int; tuple comparison of (start, end, bam_index, record) never reaches the record "
                "(theorem queue_indices_nodup)",
                "mtimes are compared for equality only; the harness uses integral mtimes so float == is exact",
                "grouping by file name (switched on automatically for several BAM files) only adds grouped tables; "
-               "the ungrouped outputs named by the statement are compared"]
+               "the ungrouped outputs named by the statement are compared",
+               "end to end: records handed to the resolver never carry type `suspended`; assignment ids are pairwise "
+               "different within one chromosome (drawn from a counter); the feature-id order is a total order; inside one "
+               "forwarded (sub-)region two records that BasicReadAssignment.__eq__ identifies are identical "
+               "(NoConflictingDuplicates - outside it the statement is false of model and code: known finding "
+               "eq_duplicate_file_order)",
+               "end to end: printed TPM values are compared to the model's exact fraction within half a unit of the last "
+               "printed digit (as in C02)"]
 
 
 # ------------------------------------------------------------------------------------------------
@@ -495,6 +517,8 @@ def correspondence(ctx):
         shutil.rmtree(real_dir, ignore_errors=True)
     corr_cache(ctx)
     corr_history(ctx)
+    from props import C12e2e
+    C12e2e.correspondence(ctx)
 
 
 # ------------------------------------------------------------------------------------------------
@@ -971,8 +995,11 @@ def oracle_pipeline(ctx, broken):
 
 
 def oracle(ctx, disagreements, broken):
+    from props import C12e2e
     oracle_partition(ctx, disagreements, broken)
     oracle_cache(ctx, disagreements, broken)
+    C12e2e.oracle_downstream(ctx, disagreements)
+    C12e2e.oracle_known_finding(ctx)
     oracle_pipeline(ctx, broken)
 
 
@@ -995,6 +1022,13 @@ def replay(ctx, failure):
             box.close()
     if kind == "cache:stale_or_foreign_db":
         return history_check(inp["ops"]) is not None
+    if kind == "downstream:order_dependent":
+        from props import C12e2e
+        return C12e2e.order_check(inp["a"], inp["b"]) is not None
+    if kind == "pipeline:eq_duplicate_file_order":
+        from props import C12e2e
+        r = C12e2e.dup_file_order_probe()
+        return bool(r) and not r.startswith("infra")
     if kind.startswith("pipeline:"):
         _, st, r, _ = _job(inp)
         return bool(r) and st == "ok"
